@@ -221,14 +221,14 @@ func (r *rw) rewriteFile() {
 				}
 			}
 			if r.mode.conc {
-				for _, nm := range []string{"Sleep", "NewTicker"} {
+				for _, nm := range []string{"Sleep", "NewTicker", "AfterFunc"} {
 					if r.isPkgSel(n, "time", nm) {
 						c.Replace(vrtSel(nm))
 						r.needVrt, r.changed = true, true
 						r.sites++
 					}
 				}
-				for _, nm := range []string{"After", "Tick", "NewTimer", "AfterFunc"} {
+				for _, nm := range []string{"After", "Tick", "NewTimer"} {
 					if r.isPkgSel(n, "time", nm) {
 						r.errAt(n, "time."+nm+" is not supported in a scheduled package")
 					}
